@@ -264,16 +264,20 @@ Section SortedById.
   Context {A : Type} (key : A -> string).
   Fixpoint sfind (k : string) (l : list A) : option A :=
     match l with [] => None | x :: r => if String.eqb k (key x) then Some x else sfind k r end.
-  Fixpoint sinsert (v : A) (l : list A) : list A :=
+  (* map update on an identifier-ordered list: replace the entry with the same key if there is one, otherwise
+     insert before the first entry with a larger key (on a sorted list this is the usual sorted insertion) *)
+  Fixpoint sreplace (v : A) (l : list A) : list A :=
+    match l with
+    | [] => []
+    | x :: r => if String.eqb (key v) (key x) then v :: r else x :: sreplace v r
+    end.
+  Fixpoint sins_sorted (v : A) (l : list A) : list A :=
     match l with
     | [] => [v]
-    | x :: r =>
-        match String.compare (key v) (key x) with
-        | Eq => v :: r
-        | Lt => v :: x :: r
-        | Gt => x :: sinsert v r
-        end
+    | x :: r => if String.ltb (key v) (key x) then v :: x :: r else x :: sins_sorted v r
     end.
+  Definition sinsert (v : A) (l : list A) : list A :=
+    match sfind (key v) l with Some _ => sreplace v l | None => sins_sorted v l end.
   Fixpoint sremove (k : string) (l : list A) : list A :=
     match l with [] => [] | x :: r => if String.eqb k (key x) then r else x :: sremove k r end.
 End SortedById.
